@@ -121,7 +121,7 @@ def real_collect_files(pairs, mem):
     AP, ST, RG, DP = _mods()
     try:
         col = AP.AlignmentCollector("chr1", pairs, _params(mem), None, None, None)
-        col.process_alignments_in_region = lambda region, alns: (tuple(region), [[i, rid_of(a)] for i, a in alns])
+        col.process_alignments_in_region = lambda region, alns, gene_region=None: (tuple(region), [[i, rid_of(a)] for i, a in alns])
         out = [[list(r), lst] for r, lst in col.process()]
     except ERRS as ex:
         return {"error": "error", "exc": type(ex).__name__}
@@ -161,7 +161,7 @@ def real_experiment_stats(chroms, unmapped):
     dp.alignment_stat_counter = ST.EnumStats()
     for c in chroms:
         col = AP.AlignmentCollector("chr1", fake_pairs(c["files"], c["L"]), _params(False), None, None, None)
-        col.process_alignments_in_region = lambda region, alns: None
+        col.process_alignments_in_region = lambda region, alns, gene_region=None: None
         for _ in col.process():
             pass
         dp.alignment_stat_counter.merge(col.alignment_stat_counter)
@@ -206,7 +206,10 @@ def real_groups(files, L, names, readable, mem):
         col = AP.AlignmentCollector("chr1", pairs, params, None, None, None, g)
         out = []
         for gene_info, storage in col.process():
-            out.append([[gene_info.start, gene_info.end], [[int(ra.read_id[1:]), ra.read_group] for ra in storage]])
+            # the sub-region is what the records carry (genomic_region); the region of the (empty) gene info is the region the
+            # genes were asked for, which after the repair of audit2-C GAP 1 is the extent of the sub-region's alignments
+            reg = list(storage[0].genomic_region) if storage else [gene_info.start, gene_info.end]
+            out.append([reg, [[int(ra.read_id[1:]), ra.read_group] for ra in storage]])
         return {"out": out, "groups": sorted(g.read_groups)}
     except ERRS as ex:
         return {"error": "error", "exc": type(ex).__name__}
